@@ -280,7 +280,27 @@ func (w *World) Gen() *GenTx {
 		case "unbond":
 			sr := w.Stakes[w.R.Intn(len(w.Stakes))]
 			a = sr.A
-			typ, data = transaction.TypeUnbond, transaction.UnbondDataV3{PubKey: sr.Pub, Coin: sr.Coin, Value: w.amount(500)}
+			val := w.amount(500)
+			// boundaries of the amount an account can take out: its waitlist entry W and its applied stake S at this candidate
+			st := w.N.App.CurrentState()
+			S := st.Candidates().GetStakeValueOfAddress(sr.Pub, a.Addr, sr.Coin)
+			W := big.NewInt(0)
+			if it := st.WaitList().Get(a.Addr, sr.Pub, sr.Coin); it != nil {
+				W = it.Value
+			}
+			if S == nil {
+				S = big.NewInt(0)
+			}
+			if (w.R.Intn(3) == 0 || (W.Sign() > 0 && w.R.Intn(3) != 0)) && (S.Sign() > 0 || W.Sign() > 0) {
+				ws := new(big.Int).Add(W, S)
+				cands := []*big.Int{cp(S), cp(ws), new(big.Int).Add(ws, Z(1)), new(big.Int).Add(ws, W), new(big.Int).Add(new(big.Int).Add(ws, W), Z(1)), cp(W), new(big.Int).Add(W, Z(1)),
+					new(big.Int).Add(W, new(big.Int).Div(S, Z(2)))}
+				val = cands[w.R.Intn(len(cands))]
+				if val.Sign() < 1 {
+					val = Z(1)
+				}
+			}
+			typ, data = transaction.TypeUnbond, transaction.UnbondDataV3{PubKey: sr.Pub, Coin: sr.Coin, Value: val}
 		case "move":
 			to := w.cand()
 			if w.R.Intn(8) == 0 {
@@ -288,7 +308,13 @@ func (w *World) Gen() *GenTx {
 			}
 			sr := w.Stakes[w.R.Intn(len(w.Stakes))]
 			a = sr.A
-			typ, data = transaction.TypeMoveStake, transaction.MoveStakeData{FromPubKey: sr.Pub, ToPubKey: to, Coin: sr.Coin, Value: w.amount(500)}
+			mv := w.amount(500)
+			if w.R.Intn(4) == 0 { // the whole stake
+				if S := w.N.App.CurrentState().Candidates().GetStakeValueOfAddress(sr.Pub, a.Addr, sr.Coin); S != nil && S.Sign() > 0 {
+					mv = cp(S)
+				}
+			}
+			typ, data = transaction.TypeMoveStake, transaction.MoveStakeData{FromPubKey: sr.Pub, ToPubKey: to, Coin: sr.Coin, Value: mv}
 		case "lockstake":
 			typ, data = transaction.TypeLockStake, transaction.LockStakeData{}
 		case "lock":
